@@ -94,3 +94,37 @@ def reset():
         except Exception:
             pass
     return drift
+
+
+class pristine_state:
+    """`with pristine_state():` - run a *reference* computation against the
+    import-time module state, then put the accumulated state of the simulated
+    history back.  "The same operation on freshly built objects" must not see
+    what the shared history left behind in module-level caches (otherwise both
+    sides are polluted alike and agree), and computing a reference in the
+    middle of a history must not wipe what that history accumulated."""
+
+    def __enter__(self):
+        global _PRISTINE
+        if _PRISTINE is None:
+            _PRISTINE = _collect()
+        objs, caches = _PRISTINE
+        self.saved = []
+        for live, pristine in objs:
+            if live != pristine:
+                self.saved.append((live, copy.copy(live)))
+                if isinstance(live, list):
+                    live[:] = copy.deepcopy(pristine)
+                else:
+                    live.clear()
+                    live.update(copy.deepcopy(pristine))
+        return self
+
+    def __exit__(self, *exc):
+        for live, saved in self.saved:
+            if isinstance(live, list):
+                live[:] = saved
+            else:
+                live.clear()
+                live.update(saved)
+        return False
